@@ -183,8 +183,7 @@ func (matrix *SparseInt16Matrix) SLICE(rfrom, rto, cfrom, cto int) *SparseInt16M
   return &m
 }
 func (matrix *SparseInt16Matrix) AsSparseInt16Vector() *SparseInt16Vector {
-  if matrix.cols < matrix.colMax - matrix.colOffset ||
-    (matrix.rows < matrix.rowMax - matrix.rowOffset) {
+  if matrix.rows != matrix.rowMax || matrix.cols != matrix.colMax {
     n, m := matrix.Dims()
     v := nilSparseInt16Vector(n*m)
     for it := matrix.ConstIterator(); it.Ok(); it.Next() {
